@@ -71,6 +71,11 @@ def make_watcher(world, conf):
         hooks[hname] = (HookScript(world, conf['name'], hname, outcome), bool(ignore))
     if hooks:
         kw['hooks'] = hooks
+    if conf.get('capture'):
+        # captured output: circus creates pipes and a redirector for the workers (nothing is ever written in SIM)
+        kw['stdout_stream'] = {'class': 'QueueStream'}
+        if conf.get('capture') == 'both':
+            kw['stderr_stream'] = {'class': 'QueueStream'}
     cmd = conf.get('cmd', tag_of(conf['name']))
     world.confs[tag_of(conf['name'])] = conf
     return Watcher(conf['name'], cmd, **kw)
